@@ -102,6 +102,7 @@ Definition src_value (s : src) : Z :=
   | SBytes b => b
   | SStr cp => cp
   | SPtr a => a
+  | _ => 0
   end.
 
 Definition src_nonzero (s : src) : bool :=
@@ -111,14 +112,17 @@ Definition src_nonzero (s : src) : bool :=
   | SBytes b => negb (b =? 0)
   | SStr cp => negb (cp =? 0)
   | SPtr a => negb (a =? 0)
+  | _ => false
   end.
 
+(* the source kinds the property lists *)
 Definition valid_src (s : src) : Prop :=
   match s with
   | SInt _ | SFloat _ _ => True
   | SBytes b => 0 <= b < 256
   | SStr cp => 0 <= cp <= 1114111
   | SPtr a => 0 <= a < 2 ^ 64
+  | _ => False
   end.
 
 (* signedness of the integer that int() returns *)
@@ -135,28 +139,31 @@ Definition wf_cty (T : cty) : Prop :=
   (forall sw, ckind T = KChar sw -> (csize T <= 4)%nat).
 
 Lemma cast_value_mod T s : valid_src s -> wf_cty T -> ckind T <> KBool ->
-  reduce (tsigned T) (8 * Z.of_nat (csize T)) (cast_value T s) =
+  exists z, cast_value T s = COk z /\
+  reduce (tsigned T) (8 * Z.of_nat (csize T)) z =
   reduce (tsigned T) (8 * Z.of_nat (csize T)) (src_value s).
 Proof.
   intros Hv [Hs [Hw _]] Hk. unfold cast_value, to_u64.
-  destruct s; cbn [src_value valid_src] in *.
-  - destruct (ckind T) eqn:K; try congruence; apply reduce_mod64; assumption.
+  destruct s; cbn [src_value valid_src] in *; try contradiction.
+  - destruct (ckind T) eqn:K; try congruence; eexists; (split; [reflexivity|]); apply reduce_mod64; assumption.
   - unfold trunc_float, float_to_int.
-    destruct (ckind T) eqn:K; try congruence; apply reduce_mod64; assumption.
-  - rewrite Z.mod_small by lia. reflexivity.
-  - destruct (ckind T) eqn:K; try reflexivity. destruct signed_wchar; try reflexivity.
+    destruct (ckind T) eqn:K; try congruence; eexists; (split; [reflexivity|]); apply reduce_mod64; assumption.
+  - eexists; split; [reflexivity|]. rewrite Z.mod_small by lia. reflexivity.
+  - destruct (ckind T) eqn:K; try (eexists; split; reflexivity).
+    destruct signed_wchar; try (eexists; split; reflexivity).
+    eexists; split; [reflexivity|].
     rewrite reduce_mod64 by assumption. f_equal.
     rewrite Z.mod_small by lia. lia.
-  - apply reduce_mod64; assumption.
+  - eexists; split; [reflexivity|]. apply reduce_mod64; assumption.
 Qed.
 
 Theorem cast_exact T s : valid_src s -> wf_cty T -> ckind T <> KBool ->
-  int_of_cast T s = reduce (tsigned T) (8 * Z.of_nat (csize T)) (src_value s).
+  int_of_cast T s = COk (reduce (tsigned T) (8 * Z.of_nat (csize T)) (src_value s)).
 Proof.
-  intros Hv Hwf Hk. rewrite <- cast_value_mod by assumption.
-  destruct Hwf as [Hs [Hw _]].
-  unfold int_of_cast, cast_bytes, cdata_int, tsigned.
-  destruct (ckind T) eqn:K; try congruence.
+  intros Hv Hwf Hk. destruct (cast_value_mod T s Hv Hwf Hk) as [z [Ez Er]].
+  rewrite <- Er. destruct Hwf as [Hs [Hw _]].
+  unfold int_of_cast, cast_bytes, cdata_int, tsigned. rewrite Ez.
+  destruct (ckind T) eqn:K; try congruence; f_equal.
   - apply read_signed_write_any; assumption.
   - apply read_unsigned_write_any; lia.
   - destruct signed_wchar.
@@ -165,10 +172,10 @@ Proof.
 Qed.
 
 Lemma bool_value_nonzero T s : valid_src s -> ckind T = KBool ->
-  (cast_value T s =? 0) = negb (src_nonzero s).
+  exists z, cast_value T s = COk z /\ nonzero z = if src_nonzero s then 1 else 0.
 Proof.
-  intros Hv K. unfold cast_value, as_bool, to_u64. rewrite K.
-  destruct s; cbn [src_nonzero valid_src] in *.
+  intros Hv K. unfold cast_value, to_u64, nonzero. rewrite K.
+  destruct s; cbn [src_nonzero valid_src] in *; try contradiction; eexists; (split; [reflexivity|]).
   - destruct (v =? 0); reflexivity.
   - destruct (m =? 0); reflexivity.
   - rewrite Z.mod_small by lia. destruct (b =? 0); reflexivity.
@@ -177,33 +184,58 @@ Proof.
 Qed.
 
 Theorem cast_bool T s : valid_src s -> (1 <= csize T <= 8)%nat -> ckind T = KBool ->
-  int_of_cast T s = if src_nonzero s then 1 else 0.
+  int_of_cast T s = COk (if src_nonzero s then 1 else 0).
 Proof.
-  intros Hv Hs K. unfold int_of_cast, cast_bytes, cdata_int. rewrite K.
-  rewrite bool_value_nonzero by assumption.
+  intros Hv Hs K. destruct (bool_value_nonzero T s Hv K) as [z [Ez En]].
+  unfold int_of_cast, cast_bytes, cdata_int. rewrite Ez, K, En. f_equal.
   rewrite read_unsigned_write by lia.
   assert (1 < 2 ^ (8 * Z.of_nat (csize T))).
   { apply Z.lt_le_trans with (2 ^ 8); [reflexivity|apply Z.pow_le_mono_r; lia]. }
-  destruct (src_nonzero s); cbn [negb]; apply Z.mod_small; lia.
+  destruct (src_nonzero s); apply Z.mod_small; lia.
+Qed.
+
+(* "ffi.cast(T, x) succeeds" for every listed source kind and every target *)
+Theorem cast_succeeds T s : valid_src s -> wf_cty T -> exists z, int_of_cast T s = COk z.
+Proof.
+  intros Hv Hwf. destruct (ckind T) eqn:K.
+  1,2,4: eexists; apply cast_exact; try assumption; congruence.
+  eexists. apply cast_bool; try assumption. destruct Hwf; assumption.
+Qed.
+
+(* the sources outside the property's list: what the code does with them *)
+Theorem cast_unlisted T :
+  int_of_cast T SOther = CErr CTypeError /\
+  (forall n, int_of_cast T (SBytesLen n) = CErr CTypeError) /\
+  (forall n, int_of_cast T (SStrLen n) = CErr CTypeError) /\
+  (ckind T <> KBool -> int_of_cast T SFloatInf = CErr COverflowError /\ int_of_cast T SFloatNan = CErr CValueError).
+Proof.
+  unfold int_of_cast, cast_bytes, cast_value. repeat split; try reflexivity;
+    destruct (ckind T); try reflexivity; congruence.
 Qed.
 
 (* in-range sources are preserved *)
 Corollary cast_in_range_id T s : valid_src s -> wf_cty T -> ckind T <> KBool ->
   in_range_bits (tsigned T) (8 * Z.of_nat (csize T)) (src_value s) ->
-  int_of_cast T s = src_value s.
+  int_of_cast T s = COk (src_value s).
 Proof.
-  intros Hv Hwf Hk Hr. rewrite cast_exact by assumption. apply reduce_id; [destruct Hwf as [? _]; lia|assumption].
+  intros Hv Hwf Hk Hr. rewrite cast_exact by assumption. f_equal.
+  apply reduce_id; [destruct Hwf as [? _]; lia|assumption].
 Qed.
 
-(* pointer -> uintptr_t / intptr_t -> pointer gives the same address *)
-Theorem ptr_roundtrip (sg : bool) a : 0 <= a < 2 ^ 64 ->
-  cast_int_to_ptr (int_of_cast (mk_cty (if sg then KSigned else KUnsigned) 8) (SPtr a)) = a.
+(* pointer -> uintptr_t / intptr_t -> pointer gives the same address, for any pointer size
+   (psize = 8 on this platform) *)
+Theorem ptr_roundtrip (sg : bool) (psize : nat) a : (1 <= psize <= 8)%nat -> 0 <= a < 2 ^ (8 * Z.of_nat psize) ->
+  exists z, int_of_cast (mk_cty (if sg then KSigned else KUnsigned) psize) (SPtr a) = COk z /\
+            cast_int_to_ptr psize z = a.
 Proof.
-  intros Ha. unfold cast_int_to_ptr, to_u64.
-  assert (wf_cty (mk_cty (if sg then KSigned else KUnsigned) 8)) as W.
-  { unfold wf_cty; cbn [csize ckind]. repeat split; try lia; destruct sg; discriminate. }
-  rewrite cast_exact; [|exact Ha|exact W|destruct sg; discriminate].
-  cbn [src_value csize]. change (8 * Z.of_nat 8) with 64.
-  destruct (reduce_congruent (tsigned (mk_cty (if sg then KSigned else KUnsigned) 8)) 64 a ltac:(lia)) as [k ->].
-  rewrite Z.mod_add by lia. apply Z.mod_small. exact Ha.
+  intros Hp Ha.
+  assert (2 ^ (8 * Z.of_nat psize) <= 2 ^ 64) by (apply Z.pow_le_mono_r; lia).
+  assert (wf_cty (mk_cty (if sg then KSigned else KUnsigned) psize)) as W.
+  { unfold wf_cty; cbn [csize ckind]. repeat split; try lia; destruct sg; try discriminate; intros; discriminate. }
+  eexists. split.
+  - apply cast_exact; [cbn; lia|exact W|destruct sg; discriminate].
+  - cbn [src_value csize]. unfold cast_int_to_ptr, to_u64.
+    rewrite mod64_mod by lia.
+    destruct (reduce_congruent (tsigned (mk_cty (if sg then KSigned else KUnsigned) psize)) (8 * Z.of_nat psize) a ltac:(lia)) as [k ->].
+    rewrite Z.mod_add by lia. apply Z.mod_small. exact Ha.
 Qed.
